@@ -20,7 +20,8 @@ CHECKS = {
         note="Trusted: TLC, the harness replay/recorder code, cffi. Bounded: model constants (2-3 handlers, sizes "
              "3/6/12, MaxCounter 1-2); histories are seeded samples, not all histories."),
     "C04": dict(
-        technique="trace validation of recorded thinned events of real runs against TraceEcmc.tla (TLC) on order-preserving float keys",
+        technique="trace validation of recorded thinned events against TraceEcmc.tla (TLC) + lattice of the minimum-image cube "
+                  "judged by TraceDomination.tla, both on order-preserving float keys",
         text="Every thinned event of the recorded runs of all shipped configurations (bounding rate, true rate and the uniform "
              "draw observed at the handler boundary) is judged by TLC: velocities change iff the draw is below the true rate and "
              "the true rate is positive, a rejected event leaves every velocity equal to the global state, the bounding rate is "
@@ -30,7 +31,8 @@ CHECKS = {
         note="Decided on the separations visited by the recorded runs only; the supremum over the continuum of separations is "
              "not decided by this family (DESIGN.md 5/C04, 6). Trusted: recorder wrappers, F64 keys."),
     "C07": dict(
-        technique="trace validation of recorded runs against TraceEcmc.tla (TLC): tracked global state, measured advance residuals",
+        technique="TLA+ model checking (TLC) of Motion.tla + replay into the real event-handler classes; Ecmc.tla per configuration; "
+                  "trace validation of recorded runs against TraceEcmc.tla",
         text="All commits of recorded runs of every runnable shipped configuration and of generated variants are replayed "
              "against the run-level state machine; at each commit TLC checks monotone times, fixed inactive units, advance by "
              "velocity * elapsed time (residual measured exactly), one moving chain with one velocity of the initial speed, "
@@ -38,8 +40,8 @@ CHECKS = {
         design="5/C07",
         note="Seeded runs (300 legs quick, 3000 x 3 seeds thorough), not all histories. Trusted: recorder, Fractions."),
     "C08": dict(
-        technique="TLA+ model checking (TLC) of Ecmc.tla on the tagger graph of each shipped configuration + trace validation "
-                  "of recorded runs against TraceEcmc.tla (motion versions)",
+        technique="TLA+ model checking (TLC) of Ecmc.tla per configuration and of Activator.tla with replay into the real TagActivator; "
+                  "trace validation of recorded runs (incl. dump+resume concatenations) against TraceEcmc.tla",
         text="Design: Ecmc.tla explores every leg sequence of the abstract run whose constants are read from the objects the "
              "real factory builds from each .ini; a candidate computed from an outdated trajectory or active cell that survives "
              "the trash step is a counterexample. Code: in recorded runs every commit of an interaction / cell-veto handler "
@@ -49,8 +51,8 @@ CHECKS = {
         note="Design model abstracts times and positions (any pending candidate may fire); quick tier bounds the largest "
              "configuration's exploration. Runs are seeded samples."),
     "C09": dict(
-        technique="TLA+ model checking (TLC) of Ecmc.tla per shipped configuration + trace validation of recorded runs against "
-                  "TraceEcmc.tla (pending multiset vs fresh generators)",
+        technique="TLA+ model checking (TLC) of Ecmc.tla per configuration and of Activator.tla with replay into the real TagActivator; "
+                  "trace validation of recorded runs against TraceEcmc.tla (pending multiset vs fresh generators, CoveredOnce)",
         text="Design: after every leg of the abstract run the pending candidates of each tagger equal what its generator yields "
              "from scratch (multiset of in-states for interaction taggers, counts for the others) and no pool runs dry. Code: "
              "after every real get_event_handlers_to_run the recorder re-invokes every tagger's generator on the same state and "
@@ -77,7 +79,8 @@ CHECKS = {
         design="5/C11",
         note="The cell containing a position is decided on exact rationals against the recorded extents (C16 covers extents)."),
     "C12": dict(
-        technique="trace validation of recorded composite-object runs against TraceEcmc.tla (TLC) with exactly measured residuals",
+        technique="TLA+ model checking (TLC) of Motion.tla + replay into the real event-handler classes; trace validation of recorded "
+                  "composite-object runs against TraceEcmc.tla with exactly measured residuals",
         text="At every commit of recorded dipole, water and hard-disk-dipole runs TLC checks that a composite object has a "
              "velocity iff one of its point masses has, and that the measured residuals of root velocity vs weighted sum and of "
              "root position vs weighted nearest-image barycentre (both advanced to the event time in exact rationals) stay within "
@@ -115,8 +118,8 @@ CHECKS = {
         design="5/C19",
         note="Seeded runs; dump points are the dumping events of those runs (3-8 per plan); quick: 4 plans, thorough: 9."),
     "C20": dict(
-        technique="TLA+ model checking (TLC) of MultiProc.tla (all interleavings of mediator and workers, safety + liveness) + "
-                  "controlled-schedule runs of the real multi-process mediator compared with the single-process run by Lockstep.tla",
+        technique="TLA+ model checking (TLC) of MultiProc.tla (safety + liveness); controlled-schedule runs of the real multi-process mediator: "
+                  "step-level validation of the mediator's stage machine (TraceMedStage.tla) and equality with the single-process run (Lockstep.tla)",
         text="MultiProc.tla transcribes MultiProcessMediator.run, run_in_process and the or-event; TLC explores every "
              "interleaving for 3 handlers, 2-4 cores and 2-3 legs and checks that no MediatorError/assert site is reachable, "
              "that a committed out-state (including pre-computed ones) was computed from the current in-state, that pipes are "
